@@ -113,7 +113,7 @@ def run(ctx):
     cases = corpus_cases()
     ctx.count("corpus_cases", len(cases))
     big = not ctx.quick
-    cases += [gen_case(rng, big) for _ in range(ctx.pick(380, 1800))]
+    cases += [gen_case(rng, big) for _ in range(ctx.pick(380, 4000))]
     # model answers in one batch
     lines = []
     for c in cases:
